@@ -225,7 +225,7 @@ fn run_script(script: &Value, out: &mut Vec<Value>) {
         let r = guarded(|| {
             match op {
                 "connect" => {
-                    let will = if st["will"].is_object() {
+                    let will = if st["will"].is_object() && st["will"]["m"].as_u64().unwrap_or(0) != 0 {
                         let w = &st["will"];
                         Some(LastWill { topic: uncl(&w["topic"]).into(), message: w["m"].as_u64().unwrap().to_string().into(), qos: qos(w["q"].as_u64().unwrap()), retain: w["retain"].as_bool().unwrap_or(false) })
                     } else { None };
